@@ -86,3 +86,10 @@ Definition bytes_of (l : list Z) : res (list Z) :=
 
 (* int.from_bytes([x], <any byte order>, signed=...) of one byte *)
 Definition from_one_byte (signed : bool) (x : Z) : Z := if signed && (128 <=? x) then x - 256 else x.
+
+(* set(d.keys()) == {k} on an insertion-ordered dict *)
+Definition keyset_is {V} (d : odict V) (k : Z) : bool :=
+  match okeys d with [] => false | ks => forallb (fun k' => k' =? k) ks end.
+Definition nonempty {A} (l : list A) : bool := match l with [] => false | _ => true end.
+(* for k, v in d.items(): d[k] = f v   (the value under the key being visited is replaced; keys and order are kept) *)
+Definition omap_values {V} (f : V -> V) (d : odict V) : odict V := map (fun kv : Z * V => (fst kv, f (snd kv))) d.
